@@ -82,6 +82,7 @@ def run(ctx):
     # otherwise a waker parked after close() is never drained (state -> waker -> task -> subscriber -> state cycle)
     from . import leaf
     leaf.check_critical_section(ctx, "R02.1")
+    r20_6b(ctx)
     r20_7(ctx)
 
 
@@ -332,3 +333,29 @@ def r20_7(ctx):
             ctx.verdict(finals == {1}, "R20.7", f, "take-exactly-once", b.line_at((blk, 10 ** 6)), "ManuallyDrop::take(&mut self.%s) exactly once on every path of Drop" % counter,
                         "SharedObservable's Drop takes the owner counter %s times on some path: %s" % (sorted(finals), "its share is leaked (observable_count never goes down, the state is never closed)" if 0 in finals else "double drop"))
             break
+
+
+def r20_6b(ctx):
+    """wakers are references from the library back into the user's tasks; the only place that may hold them is the waker list
+    of the shared state, which update and close drain (R02.4 / R02.5). A Waker kept in a handle (a subscriber that remembers
+    the waker it registered) is reachable by nothing that clears it: task -> future -> subscriber -> waker -> task."""
+    F = ctx.facts
+    n = 0
+    bad = 0
+    for key, a in sorted(F.adts.items()):
+        if a.get("crate") != EY:
+            continue
+        for var in a["variants"]:
+            for fd in var["fields"]:
+                if "task::Waker" not in str(fd["ty"]):
+                    continue
+                n += 1
+                where = "%s:%d" % (a["span"]["file"], a["span"]["line"])
+                if a["path"].endswith("ObservableStateMetadata"):
+                    ctx.holds("R20.6", a["path"], "waker-holder:%s.%s" % (a["path"].split("::")[-1], fd["name"]), where, "the shared state's waker list (drained by notify and close)")
+                else:
+                    bad += 1
+                    ctx.violated("R20.6", a["path"], "waker-holder:%s.%s" % (a["path"].split("::")[-1], fd["name"]), where,
+                                 "`%s` stores a `%s` in field `%s`: nothing drains it (only the state's waker list is drained on update and close), so a parked task that owns this handle keeps itself - and the observable's value - alive forever" % (
+                                     a["path"], fd["ty"], fd["name"]))
+    ctx.floor("R20.6", n, 1)
